@@ -8,6 +8,7 @@ package keeper
 
 //@ import types "github.com/ovrclk/akash/x/market/types"
 //@ import dtypes "github.com/ovrclk/akash/x/deployment/types"
+//@ import sdk "github.com/cosmos/cosmos-sdk/types"
 //@ import keeper "github.com/ovrclk/akash/x/market/keeper"
 
 // ---- store layout (C06): byte-level definitions, key functions verified against them ----
@@ -90,21 +91,108 @@ package keeper
 // the escrow module as seen from the market keeper: it has its own store (A-WIRING: distinct store keys);
 // closing a bid-deposit account touches neither this store nor the event log of typed marketplace events
 //@ spec mktEscrowSKey(): iface
+// ---- store well-formedness: every record is stored under the key of its own id ----
+//@ lemma ordKeyPrefix(o: types.OrderID)
+//@   theory strings
+//@   ensures hasPrefix(orderKeyOf(o), "\x01\x00") && !hasPrefix(orderKeyOf(o), "\x02\x00") && !hasPrefix(orderKeyOf(o), "\x03\x00")
+//@   trigger orderKeyOf(o)
+//@ lemma bidKeyPrefix(b: types.BidID)
+//@   theory strings
+//@   ensures hasPrefix(bidKeyOf(b), "\x02\x00") && !hasPrefix(bidKeyOf(b), "\x01\x00") && !hasPrefix(bidKeyOf(b), "\x03\x00")
+//@   trigger bidKeyOf(b)
+//@ lemma leaseKeyPrefix(l: types.LeaseID)
+//@   theory strings
+//@   ensures hasPrefix(leaseKeyOf(l), "\x03\x00") && !hasPrefix(leaseKeyOf(l), "\x01\x00") && !hasPrefix(leaseKeyOf(l), "\x02\x00")
+//@   trigger leaseKeyOf(l)
+//@ spec opaque mktWF(has: map[str]bool, val: map[str]str): bool =
+//@     (forall key: str :: has[key] && hasPrefix(key, "\x01\x00") ==> orderKeyOf(decode(types.Order, val[key]).OrderID) == key)
+//@     && (forall key: str :: has[key] && hasPrefix(key, "\x02\x00") ==> bidKeyOf(decode(types.Bid, val[key]).BidID) == key)
+//@     && (forall key: str :: has[key] && hasPrefix(key, "\x03\x00") ==> leaseKeyOf(decode(types.Lease, val[key]).LeaseID) == key)
+//@ lemma mktWFSetOrder(has: map[str]bool, val: map[str]str, rec: types.Order)
+//@   requires mktWF(has, val)
+//@   ensures mktWF(has[orderKeyOf(rec.OrderID) := true], val[orderKeyOf(rec.OrderID) := encode(rec)])
+//@   trigger mktWF(has, val), val[orderKeyOf(rec.OrderID) := encode(rec)]
+//@ lemma mktWFSetBid(has: map[str]bool, val: map[str]str, rec: types.Bid)
+//@   requires mktWF(has, val)
+//@   ensures mktWF(has[bidKeyOf(rec.BidID) := true], val[bidKeyOf(rec.BidID) := encode(rec)])
+//@   trigger mktWF(has, val), val[bidKeyOf(rec.BidID) := encode(rec)]
+//@ lemma mktWFSetLease(has: map[str]bool, val: map[str]str, rec: types.Lease)
+//@   requires mktWF(has, val)
+//@   ensures mktWF(has[leaseKeyOf(rec.LeaseID) := true], val[leaseKeyOf(rec.LeaseID) := encode(rec)])
+//@   trigger mktWF(has, val), val[leaseKeyOf(rec.LeaseID) := encode(rec)]
+//@ lemma mktWFGetOrder(has: map[str]bool, val: map[str]str, o: types.OrderID)
+//@   requires mktWF(has, val) && has[orderKeyOf(o)]
+//@   ensures orderKeyOf(ordOf(val, o).OrderID) == orderKeyOf(o)
+//@   trigger mktWF(has, val), ordOf(val, o)
+//@ lemma mktWFGetBid(has: map[str]bool, val: map[str]str, b: types.BidID)
+//@   requires mktWF(has, val) && has[bidKeyOf(b)]
+//@   ensures bidKeyOf(bidOf(val, b).BidID) == bidKeyOf(b)
+//@   trigger mktWF(has, val), bidOf(val, b)
+//@ lemma mktWFGetLease(has: map[str]bool, val: map[str]str, l: types.LeaseID)
+//@   requires mktWF(has, val) && has[leaseKeyOf(l)]
+//@   ensures leaseKeyOf(leaseOf(val, l).LeaseID) == leaseKeyOf(l)
+//@   trigger mktWF(has, val), leaseOf(val, l)
+
 // Closing a deployment's payment may exhaust the account and so run the marketplace hooks; whatever they do to
-// another module's store, they never remove a record and never re-open a closed one, and they only add events
-// (assumed here, A-HOOKS; the hooks themselves are verified against it in x/market/hooks).
-//@ spec opaque keepsClosed(h0: map[str]bool, v0: map[str]str, h1: map[str]bool, v1: map[str]str): bool =
-//@     (forall key: str :: h0[key] ==> h1[key])
+// another module's store, they never remove a record, keep every record under its own key, never re-open a closed
+// one, and only add events (assumed at the escrow interface, A-HOOKS; the hooks themselves are verified against it
+// in x/market/hooks).
+//@ spec bidDead(s: types.Bid_State): bool = s == types.BidClosed || s == types.BidLost
+//@ spec abstract keepsClosed(h0: map[str]bool, v0: map[str]str, h1: map[str]bool, v1: map[str]str): bool =
+//@     (forall key: str :: h0[key] ==> h1[key]) && (mktWF(h0, v0) ==> mktWF(h1, v1))
 //@     && (forall o: types.OrderID :: ordOf(v0, o).State == types.OrderClosed ==> ordOf(v1, o).State == types.OrderClosed)
-//@     && (forall b: types.BidID :: bidOf(v0, b).State == types.BidClosed || bidOf(v0, b).State == types.BidLost ==> bidOf(v1, b).State == types.BidClosed || bidOf(v1, b).State == types.BidLost)
+//@     && (forall b: types.BidID :: bidDead(bidOf(v0, b).State) ==> bidDead(bidOf(v1, b).State))
 //@     && (forall l: types.LeaseID :: leaseOf(v0, l).State != types.LeaseActive ==> leaseOf(v1, l).State != types.LeaseActive)
 //@ lemma keepsClosedRefl(h: map[str]bool, v: map[str]str)
+//@   uses def:keepsClosed
 //@   ensures keepsClosed(h, v, h, v)
 //@   trigger keepsClosed(h, v, h, v)
 //@ lemma keepsClosedTrans(h0: map[str]bool, v0: map[str]str, h1: map[str]bool, v1: map[str]str, h2: map[str]bool, v2: map[str]str)
+//@   uses def:keepsClosed
 //@   requires keepsClosed(h0, v0, h1, v1) && keepsClosed(h1, v1, h2, v2)
 //@   ensures keepsClosed(h0, v0, h2, v2)
 //@   trigger keepsClosed(h0, v0, h1, v1), keepsClosed(h1, v1, h2, v2)
+//@ lemma keepsClosedHas(h0: map[str]bool, v0: map[str]str, h1: map[str]bool, v1: map[str]str, key: str)
+//@   uses def:keepsClosed
+//@   requires keepsClosed(h0, v0, h1, v1) && h0[key]
+//@   ensures h1[key]
+//@   trigger keepsClosed(h0, v0, h1, v1), h1[key]
+//@ lemma keepsClosedWF(h0: map[str]bool, v0: map[str]str, h1: map[str]bool, v1: map[str]str)
+//@   uses def:keepsClosed
+//@   requires keepsClosed(h0, v0, h1, v1) && mktWF(h0, v0)
+//@   ensures mktWF(h1, v1)
+//@   trigger keepsClosed(h0, v0, h1, v1)
+//@ lemma keepsClosedOrder(h0: map[str]bool, v0: map[str]str, h1: map[str]bool, v1: map[str]str, o: types.OrderID)
+//@   uses def:keepsClosed
+//@   requires keepsClosed(h0, v0, h1, v1) && ordOf(v0, o).State == types.OrderClosed
+//@   ensures ordOf(v1, o).State == types.OrderClosed
+//@   trigger keepsClosed(h0, v0, h1, v1), ordOf(v1, o)
+//@ lemma keepsClosedBid(h0: map[str]bool, v0: map[str]str, h1: map[str]bool, v1: map[str]str, b: types.BidID)
+//@   uses def:keepsClosed
+//@   requires keepsClosed(h0, v0, h1, v1) && bidDead(bidOf(v0, b).State)
+//@   ensures bidDead(bidOf(v1, b).State)
+//@   trigger keepsClosed(h0, v0, h1, v1), bidOf(v1, b)
+//@ lemma keepsClosedLease(h0: map[str]bool, v0: map[str]str, h1: map[str]bool, v1: map[str]str, l: types.LeaseID)
+//@   uses def:keepsClosed
+//@   requires keepsClosed(h0, v0, h1, v1) && leaseOf(v0, l).State != types.LeaseActive
+//@   ensures leaseOf(v1, l).State != types.LeaseActive
+//@   trigger keepsClosed(h0, v0, h1, v1), leaseOf(v1, l)
+// closing steps are of this kind
+//@ lemma keepsClosedCloseOrder(h: map[str]bool, v: map[str]str, rec: types.Order)
+//@   uses def:keepsClosed
+//@   requires rec.State == types.OrderClosed
+//@   ensures keepsClosed(h, v, h[orderKeyOf(rec.OrderID) := true], v[orderKeyOf(rec.OrderID) := encode(rec)])
+//@   trigger v[orderKeyOf(rec.OrderID) := encode(rec)], h[orderKeyOf(rec.OrderID) := true]
+//@ lemma keepsClosedCloseBid(h: map[str]bool, v: map[str]str, rec: types.Bid)
+//@   uses def:keepsClosed
+//@   requires bidDead(rec.State)
+//@   ensures keepsClosed(h, v, h[bidKeyOf(rec.BidID) := true], v[bidKeyOf(rec.BidID) := encode(rec)])
+//@   trigger v[bidKeyOf(rec.BidID) := encode(rec)], h[bidKeyOf(rec.BidID) := true]
+//@ lemma keepsClosedCloseLease(h: map[str]bool, v: map[str]str, rec: types.Lease)
+//@   uses def:keepsClosed
+//@   requires rec.State != types.LeaseActive
+//@   ensures keepsClosed(h, v, h[leaseKeyOf(rec.LeaseID) := true], v[leaseKeyOf(rec.LeaseID) := encode(rec)])
+//@   trigger v[leaseKeyOf(rec.LeaseID) := encode(rec)], h[leaseKeyOf(rec.LeaseID) := true]
 //@ ghost PayCloseReq: map[str]map[str]bool
 //@ extern keeper.(EscrowKeeper).AccountClose(recv, ctx, id)
 //@   modifies ghost KVhas, ghost KVval, ghost G, ghost Bank, ghost Mod, ghost It_all, ghost EvN, ghost EvLog
@@ -240,7 +328,7 @@ package keeper
 //@ func (Keeper).OnGroupClosed$1$1
 //@   requires k.skey != mktEscrowSKey()
 //@   modifies ghost KVhas, ghost KVval, ghost G, ghost Bank, ghost Mod, ghost It_all, ghost EvN, ghost EvLog, ghost PayCloseReq
-//@   uses keepsClosedTrans, keepsClosedRefl, depKeepsTrans, depKeepsRefl, orderBidDisjoint, orderLeaseDisjoint, bidLeaseDisjoint
+//@   uses keepsClosedTrans, keepsClosedRefl, keepsClosedHas, keepsClosedWF, keepsClosedOrder, keepsClosedBid, keepsClosedLease, keepsClosedCloseOrder, keepsClosedCloseBid, keepsClosedCloseLease, depKeepsTrans, depKeepsRefl, orderBidDisjoint, orderLeaseDisjoint, bidLeaseDisjoint
 //@   ensures [walk] !result
 //@   ensures [keeps] keepsClosed(old(KVhas)[k.skey], old(KVval)[k.skey], KVhas[k.skey], KVval[k.skey])
 //@   ensures [bid] bid.State != types.BidLost && bid.State != types.BidClosed ==>
@@ -255,7 +343,7 @@ package keeper
 //@ func (Keeper).OnGroupClosed$1
 //@   requires k.skey != mktEscrowSKey()
 //@   modifies ghost KVhas, ghost KVval, ghost G, ghost Bank, ghost Mod, ghost It_all, ghost EvN, ghost EvLog, ghost PayCloseReq
-//@   uses keepsClosedTrans, keepsClosedRefl, depKeepsTrans, depKeepsRefl, orderBidDisjoint, orderLeaseDisjoint, bidLeaseDisjoint
+//@   uses keepsClosedTrans, keepsClosedRefl, keepsClosedHas, keepsClosedWF, keepsClosedOrder, keepsClosedBid, keepsClosedLease, keepsClosedCloseOrder, keepsClosedCloseBid, keepsClosedCloseLease, depKeepsTrans, depKeepsRefl, orderBidDisjoint, orderLeaseDisjoint, bidLeaseDisjoint
 //@   call 1 invariant keepsClosed(atloop(KVhas)[k.skey], atloop(KVval)[k.skey], KVhas[k.skey], KVval[k.skey])
 //@   call 1 invariant !cbstop && EvN >= atloop(EvN) && (forall j: int :: 0 <= j && j < atloop(EvN) ==> EvLog[j] == atloop(EvLog)[j])
 //@   ensures [walk] !result
@@ -268,13 +356,19 @@ package keeper
 //@ func (Keeper).OnGroupClosed
 //@   requires k.skey != mktEscrowSKey()
 //@   modifies ghost KVhas, ghost KVval, ghost G, ghost Bank, ghost Mod, ghost It_all, ghost EvN, ghost EvLog, ghost PayCloseReq
-//@   uses keepsClosedTrans, keepsClosedRefl, depKeepsTrans, depKeepsRefl
+//@   uses keepsClosedTrans, keepsClosedRefl, keepsClosedHas, keepsClosedWF, keepsClosedOrder, keepsClosedBid, keepsClosedLease, keepsClosedCloseOrder, keepsClosedCloseBid, keepsClosedCloseLease, depKeepsTrans, depKeepsRefl
 //@   call 1 invariant keepsClosed(atloop(KVhas)[k.skey], atloop(KVval)[k.skey], KVhas[k.skey], KVval[k.skey])
 //@   call 1 invariant !cbstop && EvN >= atloop(EvN) && (forall j: int :: 0 <= j && j < atloop(EvN) ==> EvLog[j] == atloop(EvLog)[j])
 //@   call 1 invariant forall sk: iface {KVval[sk]} :: sk != mktEscrowSKey() && sk != k.skey ==> depKeeps(atloop(KVhas)[sk], atloop(KVval)[sk], KVhas[sk], KVval[sk])
 //@   ensures [keeps] keepsClosed(old(KVhas)[k.skey], old(KVval)[k.skey], KVhas[k.skey], KVval[k.skey])
 //@   ensures [dep] forall sk: iface {KVval[sk]} :: sk != mktEscrowSKey() && sk != k.skey ==> depKeeps(old(KVhas)[sk], old(KVval)[sk], KVhas[sk], KVval[sk])
 //@   ensures [events] EvN >= old(EvN) && (forall j: int :: 0 <= j && j < old(EvN) ==> EvLog[j] == old(EvLog)[j])
+
+// module parameters live in the params subspace (A-PARAMS): read as an abstract function of the context
+//@ spec mktParams(ctx: sdk.Context): types.Params
+//@ func (Keeper).GetParams
+//@   trusted
+//@   ensures params == mktParams(ctx)
 
 // the number of bids on an order (C08: bid cap)
 //@ func (Keeper).BidCountForOrder
@@ -286,7 +380,7 @@ package keeper
 //@                 (Keeper).CreateBid#*, (Keeper).CreateLease#*, (Keeper).OnOrderMatched#*, (Keeper).OnBidMatched#*, (Keeper).OnBidLost#*, (Keeper).OnBidClosed#*,
 //@                 (Keeper).OnOrderClosed#*, (Keeper).OnLeaseClosed#*, (Keeper).WithOrdersForGroup#*, (Keeper).WithBidsForOrder#*, (Keeper).BidCountForOrder#*,
 //@                 (Keeper).CreateOrder#*, (Keeper).CreateOrder$1#*, (Keeper).OnGroupClosed#*, (Keeper).OnGroupClosed$1#*, (Keeper).OnGroupClosed$1$1#*,
-//@                 lemma:keepsClosedRefl, lemma:keepsClosedTrans, lemma:orderBidDisjoint, lemma:orderLeaseDisjoint, lemma:bidLeaseDisjoint
+//@                 lemma:keepsClosedRefl, lemma:keepsClosedTrans, lemma:keepsClosedHas, lemma:keepsClosedWF, lemma:keepsClosedOrder, lemma:keepsClosedBid, lemma:keepsClosedLease, lemma:keepsClosedCloseOrder, lemma:keepsClosedCloseBid, lemma:keepsClosedCloseLease, lemma:ordKeyPrefix, lemma:bidKeyPrefix, lemma:leaseKeyPrefix, lemma:mktWFSetOrder, lemma:mktWFSetBid, lemma:mktWFSetLease, lemma:mktWFGetOrder, lemma:mktWFGetBid, lemma:mktWFGetLease, lemma:orderBidDisjoint, lemma:orderLeaseDisjoint, lemma:bidLeaseDisjoint
 
 //@ property C06 := orderKey#*, bidKey#*, leaseKey#*, ordersForGroupPrefix#*, bidsForOrderPrefix#*,
 //@     lemma:orderKeyInj, lemma:bidKeyInj, lemma:leaseKeyInj, lemma:ordersForGroupExact, lemma:bidsForOrderExact, lemma:kindsDisjoint
